@@ -86,7 +86,7 @@ func (e *Env) optionalEvents(r *Run) []Event {
 	}
 	for _, p := range e.pairs {
 		for _, end := range []*WSEnd{p.client, p.server} {
-			if end.wdlSet && !end.wdlExpired && end.flushWaiters > 0 && end.flushStalled(r) {
+			if !end.wdlExpired && end.flushStalled(r) && ((end.wdlSet && end.flushWaiters > 0) || end.ctlDlWaiters > 0) {
 				out = append(out, wsWriteDeadlineEv{end})
 			}
 		}
